@@ -401,6 +401,10 @@ def check_head_tail(ob: Ob, m, line, kw, canon: str, syn: str, seq_expected, wha
 
 @obligation("C13-D5", "from_jsonld term filter (decision table): skips empty keys and keys starting with '@'; takes str values and dict values whose '@prefix' IS True (taking '@id'); ignores everything else", floor=2)
 def d5(cx: Cx, ob: Ob) -> None:
+    check_jsonld_reader(cx, ob)
+
+
+def check_jsonld_reader(cx: Cx, ob: Ob) -> None:
     ci = cx.model.cls(CONV, ob.id)
     m = cx.model.find_method(ci, "from_jsonld")
     s = cx.summary(m, ob.id)
@@ -427,6 +431,24 @@ def d5(cx: Cx, ob: Ob) -> None:
             ob.site(f"{where(m, ev.line)} {m.qualname}", f"store {show(ev.a[2])} := {show(ev.b)[:30]}")
             if ev.a[2] != k:
                 ob.violate(m.qualname, where(m, ev.line), "from_jsonld stores under something other than the term key", detail="store-key")
+            # no further condition on the key or value may stand between a well-formed term and the store
+            allowed = {
+                (k, True),
+                (("call", ("attr", k, "startswith"), (("const", "@"),), ()), False),
+            }
+            for g, pol in guards:
+                if (g, pol) in allowed:
+                    continue
+                if any(x == v for x in subterms(g)) and not any(x == k for x in subterms(g)):
+                    continue  # tests on the value are judged below
+                if any(x == k for x in subterms(g)):
+                    ob.violate(
+                        m.qualname,
+                        where(m, ev.line),
+                        f"from_jsonld keeps a term only if `{'' if pol else 'not '}{show(g)[:50]}`: well-formed prefixes (non-empty, not starting with '@') are silently dropped, so contexts written by write_jsonld_context do not read back",
+                        witness="a prefix such as 'a:b' or 'x-y' is written as a key and skipped on reading",
+                        detail="extra-key-filter",
+                    )
             if (k, True) not in guards:
                 ob.violate(m.qualname, where(m, ev.line), "from_jsonld keeps a term without having excluded the empty key", detail="empty-key")
             if (("call", ("attr", k, "startswith"), (("const", "@"),), ()), False) not in guards:
